@@ -208,13 +208,18 @@ def run(ctx):
     ctx.cov["rule"] = ("(a) OpCases.tla: every (kind in bin/compound-assign/unary/cast) x operator x integer type pair x boundary value pair with "
                        "defined behaviour; distinct = distinct (kind,op,types,values,target); non-trivial = left operand non-zero. "
                        "(b)/(c) random MiniC programs: distinct programs with at least 3 observations")
+    import time
+    t0 = time.time()
     opcases(ctx, objdir, runtime)
+    ctx.cov["seconds_opcases"] = round(time.time() - t0, 1)
     try:
         import c01_progs
     except ImportError:
         c01_progs = None
     if c01_progs:
+        t0 = time.time()
         c01_progs.random_programs(ctx, objdir, runtime)
+        ctx.cov["seconds_random_programs"] = round(time.time() - t0, 1)
     ctx.assumptions += ["il2c.py + gcc execute the IL (bound to QbeMachine.tla on the sampled programs each run)",
-                        "floating point, long double, volatile, _Atomic, unions, goto are outside MiniC (see DESIGN.md §6)",
+                        "non-integral floating values, long double, volatile, _Atomic, unions are outside MiniC (see DESIGN.md §6, §11.2)",
                         "programs with undefined behaviour (as decided by CSem) are discarded"]
